@@ -150,7 +150,8 @@ def c13():
     _KEEP["last13"] = kept
     kept2 = H.HTMLDocument(_KEEP["page"], lang="en").render(lib_prefix=prefix, include_version=iv)
     fresh = H.HTMLDocument(_page(), lang="en").render(lib_prefix=prefix, include_version=iv)
-    return dg(("kept objects render like fresh ones", _same(kept, fresh), _same(kept2, fresh), str(_KEEP["page"]) == str(_page())))
+    ok = (_same(kept, fresh), _same(kept2, fresh), str(_KEEP["page"]) == str(_page()))
+    return dg("kept objects render like fresh ones") if ok == ((True, True), (True, True), True) else "KEPT-DIFFERS-FROM-FRESH"
 
 
 def c14():
@@ -164,7 +165,7 @@ def c14():
     _KEEP["last14"] = {"dependencies": kept["dependencies"]}
     kept = {"html": kept["html"], "dependencies": list(kept["dependencies"])}
     fresh = _text().render(lib_prefix=prefix, include_version=iv)
-    return dg(("kept objects render like fresh ones", _same(kept, fresh)))
+    return dg("kept objects render like fresh ones") if _same(kept, fresh) == (True, True) else "KEPT-DIFFERS-FROM-FRESH"
 
 
 B = {1: c1, 2: c2, 3: c3, 4: c4, 5: c5, 6: c6, 7: c7, 8: c8, 9: c5b, 10: c10, 11: c11, 12: c12, 13: c13, 14: c14}
